@@ -67,7 +67,7 @@ CHECKS['C10'] = {
 }
 
 CHECKS['C12'] = {
-    'harnesses': ['harness.c12_maintainer'],
+    'harnesses': ['harness.c12_maintainer'], 'lemmas': 'c12',
     'text': 'Bounded model checking of the real Maintainer on the real event queue: every (target, tag) assignment of R requests issued at '
             'symbolic instants (bursts included, one from inside a start_work hook) with symbolic capacity, needed capacities, durations '
             'and costs; an online acceptor re-scans its queue in request order at each observed request and finish, and requires that exactly '
@@ -152,6 +152,7 @@ TECHNIQUE = {
     'C07': _T + '; plus AST->SMT translation of the unpause shift statement, three lemmas over the reals (z3, cvc5)',
     'C05': _T + '; plus AST->SMT (QF_BVFP) translation of the IEEE-754 delay guard, 2-ulp bound proved by cvc5 (1-ulp version shown sat)',
     'C19': _T + '; plus a QF_FP query (z3) for float intervals on which k*iv differs from repeated addition, replayed on the real sensor (witness check)',
+    'C12': _T + '; plus QF_FP queries (z3) for fractional needed capacities whose add/subtract round trip is inexact, replayed on the real Maintainer (witness check)',
     'C14': _T + '; the second run / the unsplit run replays the same symbolic tie-break weights; object hashes controlled by the harness',
     'C04': _T + '; reference recurrence built as z3 max-terms and compared by validity queries',
 }
